@@ -6,7 +6,7 @@ a value derived from it by `for`, `if let Some`, a closure parameter of an itera
 function of the generate family that itself reaches `generate`. A child that is not bound (`..`, `_`) or bound and never handed
 to a visitor is a row of the census: code whose names and types the checker never looks at.
 """
-from .common import walk, src, strip, pat_alternatives, idents_in, AnchorError
+from .common import ast_params, walk, src, strip, pat_alternatives, idents_in, AnchorError
 
 GEN_MOD = "check::constrain::generate"
 NODE = "parse::ast::Node"
@@ -35,7 +35,7 @@ def visitors(syn, mod=GEN_MOD, root="generate"):
         if f["name"] == root:
             for n in walk(f["body"]):
                 if n.get("k") == "call" and n["f"].get("k") == "path" and n["f"]["p"].split("::")[-1] in byname and \
-                        any(src(strip(a)) == "ast" for a in n["args"]):
+                        any(src(strip(a)) in ast_params(f) for a in n["args"]):
                     vis.add(n["f"]["p"].split("::")[-1])
     changed = True
     while changed:
@@ -128,7 +128,7 @@ def census(syn, mod=GEN_MOD, root="generate", enum=NODE, prefix="Node", child_ma
         if f["name"] not in vis:
             continue  # inspectors (check_reassignable, id_from_var ...) look at nodes that their visitor callers traverse
         sites = _sites(f)
-        params = {m["name"] for a in f.get("params", []) for m in walk(a) if m.get("k") == "pident"} | {"ast"}
+        params = {m["name"] for a in f.get("params", []) for m in walk(a) if m.get("k") == "pident"} | ast_params(f)
         for st in sites:
             pat, scope, scrut = st["pat"], st["scope"], st["scrut"]
             for alt in pat_alternatives(pat):
